@@ -471,6 +471,25 @@ func c19SharedCheck(c *Ctx, cs c19SharedCase) *Failure {
 
 func TestC19(t *testing.T) {
 	c := NewCtx(t, "C19")
+	// the very first loads of a process, all at once: whatever the library initialises lazily on first use is
+	// initialised under contention here (one such group per shard process, before anything else has loaded)
+	cold := func(i int) c19LoadCase {
+		docs := []string{
+			"version: \"3.9\"\nservices:\n  a:\n    image: ${IMG:-busybox}\n    ports: [\"80:80\"]\n    depends_on: [b]\n  b:\n    build: .\n    environment: [K]\n",
+			"name: cold\nservices:\n  c:\n    image: x\n    extends: d\n    volumes: [\"./v:/v\", \"data:/d\"]\n  d:\n    image: y\n    healthcheck: {test: [CMD, \"true\"], interval: 5s}\nvolumes:\n  data: {}\n",
+			"include:\n  - inc/compose.yaml\nservices:\n  e:\n    image: z\n    deploy: {replicas: 2, resources: {limits: {memory: 64m}}}\n",
+		}
+		cs := c19LoadCase{Rounds: 1, GoMaxProcs: 16}
+		for _, d := range docs {
+			cs.Inputs = append(cs.Inputs, loadCase{Files: []memFile{{Name: "compose.yaml", Content: d}, {Name: "inc/compose.yaml", Content: "services:\n  included:\n    image: ${INC:-busybox}\n"}, {Name: "inc/.env", Content: "INC=alpine\n"}},
+				Main: []string{"compose.yaml"}, Env: map[string]string{"K": "v"}, Opts: loadOpts{NameNotImperative: i%2 == 0}})
+		}
+		for g := 0; g < 8; g++ {
+			cs.Assign = append(cs.Assign, g%len(docs))
+		}
+		return cs
+	}
+	RunEnum(c, t, "cold-start", c.NShards, cold, c19LoadCheck, false)
 	RunRapid(c, t, Sub[c19LoadCase]{Kind: "caller-inputs", Quick: 60, Thorough: 2000, Gen: genC19Load, Check: c19CallerInputsCheck})
 	RunRapid(c, t, Sub[c19LoadCase]{Kind: "concurrent-loads", Quick: 160, Thorough: 6000, Gen: genC19Load, Check: c19LoadCheck})
 	RunRapid(c, t, Sub[c19FanCase]{Kind: "fan-out", Quick: 600, Thorough: 60_000,
